@@ -197,6 +197,14 @@ func parseRFC3339Strict(layout, s string) (time.Time, error) {
 			return time.Time{}, fmt.Errorf("parsing time %q: timezone offset out of range", s)
 		}
 	}
+	// time.Parse attaches the host's Local location when the written offset
+	// happens to be the one the host's zone uses at that instant; arithmetic
+	// that crosses a DST change (time-add) would then print another offset,
+	// depending on the TZ of the host.  Keep the offset as written.
+	if t.Location() == time.Local {
+		_, off := t.Zone()
+		t = t.In(time.FixedZone("", off))
+	}
 	return t, nil
 }
 
